@@ -127,6 +127,12 @@ example : OwnCached [(1, [0]), (2, [1])] [⟨1, [0]⟩, ⟨2, [1]⟩] := by
   · exact ⟨[0], rfl, by simp⟩
   · exact ⟨[1], rfl, by simp⟩
 
+/-- **the result does not depend on earlier calls**: processing the same classes a second time with
+the same handler (its `reference_types` cache is built once) raises nothing and changes no flag. -/
+theorem detect_circular_second_pass_is_identity (rt : RefTypes) (cs : List CClass) (edges final : List TEdge)
+    (h : detectCircular rt edges cs = some final) : detectCircular rt final cs = some final :=
+  detectCircular_idempotent rt cs edges final h
+
 /-- two classes referring to each other: whichever is processed first gets the flag, the other
 keeps a plain reference (so exactly one import direction remains) -/
 example :
@@ -178,5 +184,28 @@ theorem ref_class_in_source_namespace (src name q : Str) (hwf : wfQ src = true) 
 open Xs.Rename Proofs.RenameClasses in
 example : wfQ "{urn:x}t".toList = true ∧
     refClassQName "{urn:x}t".toList "a".toList false [] = some "{urn:x}a".toList := by decide +kernel
+
+/-! ## a child attr that clashes with a parent attr (repair c07d-03) -/
+
+open Xs.Rename Proofs.Rename in
+/-- **the attr renamed by `ValidateAttributesOverrides.resolve_conflict` ends with a slug no other
+attr of the class or of its parents has**, and no other attr is touched: `k` is the position (in
+`target ++ base`) of the one that was renamed. -/
+theorem override_conflict_rename_fresh (target base : List Attr) (ci bj : Nat) (hci : ci < target.length)
+    (hbj : bj < base.length) :
+    ∃ k, (k = ci ∨ k = target.length + bj) ∧
+      (∀ q, q ≠ k → (renameByPreference (target ++ base) ci (target.length + bj))[q]? = (target ++ base)[q]?) ∧
+      (∀ q, ¬ Coll (renameByPreference (target ++ base) ci (target.length + bj)) k q) := by
+  obtain ⟨k, hk, _, h2, h3⟩ := renameByPreference_spec (target ++ base) ci (target.length + bj)
+    (by simp; omega) (by simp; omega)
+  exact ⟨k, hk, h2, h3⟩
+
+open Xs.Rename in
+/-- the former witness: parent attrs `a_Attribute`, `A`, child element `a` -/
+example : resolveConflict [⟨"Element".toList, "a".toList, none⟩]
+    [⟨"Attribute".toList, "a_Attribute".toList, none⟩, ⟨"Attribute".toList, "A".toList, none⟩] 0 =
+    ([⟨"Element".toList, "a".toList, none⟩],
+     [⟨"Attribute".toList, "a_Attribute".toList, none⟩, ⟨"Attribute".toList, "A_Attribute_1".toList, none⟩]) := by
+  decide +kernel
 
 end Props.C07Layout
